@@ -172,6 +172,7 @@ type c35Run struct {
 	timedOut map[int]bool
 	formSeen map[int]string      // request -> rendering of the form the handler obtained ("" if none, "ERR" on error)
 	expected map[int]*c35Form
+	bytesSeen map[int]string // request -> parse-back of what Body()/Write()/String() gave as the first operation
 	opsDone  map[int]int // request -> number of multipart operations the handler already performed
 }
 
@@ -191,6 +192,16 @@ func (r *c35Run) observe(where string) (newFiles int) {
 	}
 	r.probes = append(r.probes, c35Probe{where, r.req, files})
 	return newFiles
+}
+
+// c35ParseBack parses a serialised multipart body (boundary c35Boundary) with mime/multipart and renders it.
+func c35ParseBack(b []byte) string {
+	f, err := multipart.NewReader(bytes.NewReader(b), c35Boundary).ReadForm(1 << 30)
+	if err != nil {
+		return fmt.Sprintf("UNPARSABLE(%v; %d bytes)", err, len(b))
+	}
+	defer f.RemoveAll() //nolint:errcheck
+	return c35Render(f)
 }
 
 func c35Hook(where string, ctx *fasthttp.RequestCtx) {
@@ -254,6 +265,33 @@ func c35Hook(where string, ctx *fasthttp.RequestCtx) {
 				ctx.Request.RemoveMultipartFormFiles()
 				r.observe("remove")
 				r.events = append(r.events, "X")
+			case "bd", "wr", "st": // the handler looks at the request as bytes: Body()/PostBody(), Write (proxying), String()
+				var got string
+				switch op {
+				case "bd":
+					got = c35ParseBack(ctx.Request.Body())
+				default:
+					var raw []byte
+					if op == "wr" {
+						var sink bytes.Buffer
+						bw := bufio.NewWriter(&sink)
+						ctx.Request.Write(bw) //nolint:errcheck
+						bw.Flush()            //nolint:errcheck
+						raw = sink.Bytes()
+					} else {
+						raw = []byte(ctx.Request.String())
+					}
+					got = "UNREADABLE"
+					if hr, err := http.ReadRequest(bufio.NewReader(bytes.NewReader(raw))); err == nil {
+						if b, err := io.ReadAll(hr.Body); err == nil {
+							got = c35ParseBack(b)
+						}
+					}
+				}
+				if r.opsDone[r.req] == 0 {
+					r.bytesSeen[r.req] = op + ": " + got
+				}
+				r.opsDone[r.req]++
 			case "rb":
 				r.opsDone[r.req]++
 				ctx.Request.ResetBody()
@@ -284,6 +322,7 @@ type c35ReqSpec struct {
 	bad      bool
 	te, clos bool
 	plain    bool
+	post     int    // > 0: an ordinary POST with a text/plain body of this many bytes (no multipart)
 	drain    int    // > 0: the Content-Length announces this many bytes behind the closing boundary that are never sent
 	// (the connection then ends with EOF or, with cfg eof=timeout, with a read error); last request of the pipeline
 	limit    string // "": none; "tight": handler's limit = body length - 1; "epi": form + short epilogue, limit = form length;
@@ -324,6 +363,11 @@ func c35ParseSpec(b []byte) c35ReqSpec {
 			s.clos = true
 		case "plain":
 			s.plain = true
+		case "post":
+			s.post, _ = strconv.Atoi(v)
+			if s.post > 100000 {
+				s.post = 100000
+			}
 		case "drain":
 			s.drain, _ = strconv.Atoi(v)
 			if s.drain > 5000 {
@@ -352,7 +396,7 @@ func c35Conn(a [][]byte) *Case {
 	c35TmpDir()
 	c35Clear()
 	connHook = c35Hook
-	run := &c35Run{firstReq: map[string]int{}, timedOut: map[int]bool{}, formSeen: map[int]string{}, expected: map[int]*c35Form{}, opsDone: map[int]int{}}
+	run := &c35Run{firstReq: map[string]int{}, timedOut: map[int]bool{}, formSeen: map[int]string{}, expected: map[int]*c35Form{}, opsDone: map[int]int{}, bytesSeen: map[int]string{}}
 	var stream bytes.Buffer
 	var specs []c35ReqSpec
 	failAt := 0 // 1-based request number whose pre-parse must fail (0 = none)
@@ -363,7 +407,7 @@ func c35Conn(a [][]byte) *Case {
 		num := i + 1
 		opsClean := ""
 		for _, op := range strings.Split(sp.ops, ".") {
-			if op == "mf" || op == "rm" || op == "rb" || op == "ml" {
+			if op == "mf" || op == "rm" || op == "rb" || op == "ml" || op == "bd" || op == "wr" || op == "st" {
 				if opsClean != "" {
 					opsClean += "."
 				}
@@ -379,6 +423,10 @@ func c35Conn(a [][]byte) *Case {
 		}
 		if sp.plain {
 			fmt.Fprintf(&stream, "GET /r%d?%s HTTP/1.1\r\nHost: h\r\n\r\n", num, q)
+			continue
+		}
+		if sp.post > 0 {
+			fmt.Fprintf(&stream, "POST /r%d?%s HTTP/1.1\r\nHost: h\r\nContent-Type: text/plain\r\nContent-Length: %d\r\n\r\n%s", num, q, sp.post, c35Pattern(sp.post, num))
 			continue
 		}
 		form := &c35Form{}
@@ -527,6 +575,17 @@ func c35Conn(a [][]byte) *Case {
 				}
 				if want := exp.render(); got != want {
 					return Verdict{VSpec, "form-differs", fmt.Sprintf("request %d: handler's MultipartForm() is\n%s\nclient sent\n%s", num, got, want)}
+				}
+			}
+			// the handler's view of the request as bytes: Body()/Write()/String() must reproduce the form
+			for num, got := range run.bytesSeen {
+				exp := run.expected[num]
+				if exp == nil || specs[num-1].bad || specs[num-1].limit == "epi" {
+					continue
+				}
+				op, seen, _ := strings.Cut(got, ": ")
+				if want := exp.render(); seen != want {
+					return Verdict{VSpec, "request-bytes-differ", fmt.Sprintf("request %d of the connection (%s as the handler's first operation): the request serialises to a body that parses back to\n%s\nclient sent\n%s", num, op, seen, want)}
 				}
 			}
 			if r[0] == "no-driver" {
@@ -822,6 +881,92 @@ func c35Hold(a [][]byte) *Case {
 		}}
 }
 
+// c35Hist: one Request object with a history (as the server's RequestCtx pool and keep-alive connections produce it):
+// optionally an ordinary request with a plain body was read into it and reset, then a multipart request is read
+// (pre-parsed) and looked at as bytes through Body / Write / String / BodyWriteTo; fresh vs reused object, with and
+// without ReduceMemoryUsage (which decides whether the body buffer is kept across Reset).
+func c35Hist(a [][]byte) *Case {
+	if len(a) < 4 || len(a[0]) != 3 {
+		return nil
+	}
+	c35TmpDir()
+	c35Clear()
+	reduceMem, reuse, api := a[0][0] == '1', a[0][1] == '1', a[0][2]
+	first := c35Atoi(a[1])
+	form := c35FormFromArgs(a[2:])
+	var ctx fasthttp.RequestCtx
+	ctx.Init2(nil, nopLogger{}, reduceMem)
+	req := &ctx.Request
+	var herr error
+	if reuse {
+		var in bytes.Buffer
+		fmt.Fprintf(&in, "POST /first HTTP/1.1\r\nHost: h\r\nContent-Type: text/plain\r\nContent-Length: %d\r\n\r\n%s", first, c35Pattern(first, 3))
+		herr = req.Read(bufio.NewReader(&in))
+		_ = req.Body()
+		req.Reset()
+	}
+	body := form.encode()
+	var in bytes.Buffer
+	fmt.Fprintf(&in, "POST /up HTTP/1.1\r\nHost: h\r\nContent-Type: multipart/form-data; boundary=%s\r\nContent-Length: %d\r\n\r\n", c35Boundary, len(body))
+	in.Write(body)
+	rerr := req.Read(bufio.NewReader(&in))
+	got := ""
+	if rerr == nil {
+		switch api {
+		case 'B':
+			got = c35ParseBack(req.Body())
+		case 'T':
+			var sink bytes.Buffer
+			if err := req.BodyWriteTo(&sink); err != nil {
+				got = "BodyWriteTo: " + err.Error()
+			} else {
+				got = c35ParseBack(sink.Bytes())
+			}
+		default:
+			var raw []byte
+			if api == 'W' {
+				var sink bytes.Buffer
+				bw := bufio.NewWriter(&sink)
+				req.Write(bw) //nolint:errcheck
+				bw.Flush()    //nolint:errcheck
+				raw = sink.Bytes()
+			} else {
+				raw = []byte(req.String())
+			}
+			got = "UNREADABLE"
+			if hr, err := http.ReadRequest(bufio.NewReader(bytes.NewReader(raw))); err == nil {
+				if b, err := io.ReadAll(hr.Body); err == nil {
+					got = c35ParseBack(b)
+				}
+			}
+		}
+	}
+	req.Reset()
+	left := c35List()
+	c35Clear()
+	want := form.render()
+	impl := fmt.Sprintf("herr=%v rerr=%v same=%v", herr, rerr, got == want)
+	return &Case{Impl: impl, Nontrivial: reuse || len(form.files) > 0, Tags: []string{"hist", fmt.Sprintf("hist-reuse-%v-rm-%v", reuse, reduceMem)},
+		Judge: func([]string) Verdict {
+			if herr != nil || rerr != nil {
+				return Verdict{VSpec, "reqrt-error", impl}
+			}
+			if got != want {
+				return Verdict{VSpec, "request-bytes-differ", fmt.Sprintf("multipart request read into a %s Request (ReduceMemoryUsage=%v, first body %d bytes), api %c: serialises to\n%s\nwant\n%s",
+					map[bool]string{true: "reused", false: "fresh"}[reuse], reduceMem, first, api, got, want)}
+			}
+			if len(left) > 0 {
+				return Verdict{VSpec, "tempfile-after-reset", fmt.Sprintf("files left after Request.Reset: %v", left)}
+			}
+			return Ok()
+		}}
+}
+
+func c35Atoi(b []byte) int {
+	n, _ := strconv.Atoi(string(b))
+	return n
+}
+
 func clip35(b []byte) []byte {
 	if len(b) > 60 {
 		return b[:60]
@@ -839,6 +984,7 @@ func init() {
 			"truncated bodies (parse errors), complete forms whose announced epilogue never arrives (connection EOF or read timeout error during the drain), handler ops MultipartForm/MultipartFormWithLimit/RemoveMultipartFormFiles/ResetBody in any order, TimeoutError, Connection: close; " +
 			"MultipartFormWithLimit at its boundary on streamed bodies with file parts > 8 KiB: limit = body length - 1, form + short epilogue with limit = form length, limit = body length; " +
 			"roundtrip: forms (values incl. empty/UTF-8/CRLF, several values per key, files in memory and on disk) written by WriteMultipartForm with random boundaries and parsed back by mime/multipart and by Request.MultipartForm; " +
+			"hist: a Request object (fresh or reused after an ordinary POST, ReduceMemoryUsage on/off) reads a multipart request and is looked at through Body/Write/String/BodyWriteTo; conn histories: ordinary POST then multipart requests on one connection with handler ops bd/wr/st; " +
 			"reqrt: request read (pre-parsed) and re-written, parsed by net/http; hold: Body() of one pre-parsed multipart request held (not copied) while Body()/String()/Write() of a second one and a response's String() run, then compared byte for byte and parsed back. non-trivial = at least one temp file really created / form with files; distinct = distinct input",
 		Assumptions: []string{
 			"mime/multipart (ReadForm, Form.RemoveAll, Writer) is correct: third party, checked by the directory listings and parse-back comparisons on every generated input, not proved",
@@ -856,6 +1002,8 @@ func init() {
 				return c35ReqRT(a)
 			case "hold":
 				return c35Hold(a)
+			case "hist":
+				return c35Hist(a)
 			}
 			return nil
 		},
@@ -1068,6 +1216,48 @@ func init() {
 					args = append(args, B("F"+[]string{"f", "f", "g"}[r.Intn(3)]), B([]string{"a.txt", "b b.bin", "ü.dat", "q\"uote"}[r.Intn(4)]), c35Pattern(sz, i+j))
 				}
 				emit("roundtrip", args...)
+			}
+			// histories: an ordinary POST first, then multipart requests on the SAME connection (same RequestCtx, whose body
+			// buffer is kept unless ReduceMemoryUsage), the handler looking at them as bytes (Body / Write / String)
+			for i := 0; i < n/4; i++ {
+				cfg := "mb=30000000"
+				if r.Chance(35) {
+					cfg += ",rm=1"
+				}
+				if r.Chance(30) {
+					cfg += ",st=1"
+				}
+				if r.Chance(25) {
+					cfg += ",npp=1"
+				}
+				args := [][]byte{B(cfg)}
+				if r.Chance(75) {
+					args = append(args, B(fmt.Sprintf("post=%d&ops=", 1+r.Intn(20000))))
+				}
+				m := 1 + r.Intn(3)
+				for j := 0; j < m; j++ {
+					op := []string{"bd", "bd", "wr", "st", "bd.mf", "mf.bd"}[r.Intn(6)]
+					s := fmt.Sprintf("fields=%d&files=%s&ops=%s", 1+r.Intn(4), sizes(), op)
+					if r.Chance(20) {
+						s += "&chunked=1"
+					}
+					args = append(args, B(s))
+					if r.Chance(30) {
+						args = append(args, B(fmt.Sprintf("post=%d&ops=", 1+r.Intn(5000))))
+					}
+				}
+				emit("conn", args...)
+			}
+			for i := 0; i < n/3; i++ {
+				flags := []byte{byte('0' + r.Intn(2)), byte('0' + r.Intn(2)), []byte("BWST")[r.Intn(4)]}
+				args := [][]byte{flags, N([]int{1, 100, 5000, 70000}[r.Intn(4)])}
+				for j := r.Intn(3); j > 0; j-- {
+					args = append(args, B("V"+[]string{"k", "k2"}[r.Intn(2)]), B(vals[r.Intn(4)]))
+				}
+				for j := r.Intn(3); j > 0; j-- {
+					args = append(args, B("F"+[]string{"f", "g"}[r.Intn(2)]), B("n.bin"), c35Pattern([]int{0, 5, 5000, 90000}[r.Intn(4)], i+j))
+				}
+				emit("hist", args...)
 			}
 			// two pre-parsed multipart requests: Body() of one held across Body()/String()/Write() of the other
 			for i := 0; i < n/4; i++ {
